@@ -308,3 +308,161 @@ Proof.
   - injection E as <- <-. split; [reflexivity|constructor].
   - injection E as <- <-. split; [reflexivity|constructor].
 Qed.
+
+(* accepting the datagram the label says: the window ghost grows by that index *)
+Lemma GI_accept c g s l bf c' :
+  GI c g -> bf_insert (c_bf_pkt c) s = Ok bf -> c_bf_pkt c' = bf -> s = wire l -> 1 <= l -> near g l ->
+  GI c' (ghost_add g l).
+Proof.
+  intros HG Hins Hc' -> Hl Hnear. unfold GI in *. rewrite Hc'. destruct g as [[m acc]|]; cbn [ghost_add].
+  - destruct HG as [HR Hnb]. pose proof (R_step _ _ _ l HR Hl (Hnear _ _ eq_refl)) as Hs.
+    destruct (spec_dup _ m acc l); [congruence|].
+    destruct Hs as (f' & E1 & E2 & E3). assert (f' = bf) as -> by congruence. split; [exact E3|congruence].
+  - rewrite HG in Hins. destruct (R_first 32 l ltac:(lia) Hl) as [E1 E2].
+    assert (bf = {| bf_nbits := 32; bf_bits := 0; bf_cur := wire l |}) as -> by congruence. split; [exact E2|reflexivity].
+Qed.
+
+(* ---------- the joint invariant ---------- *)
+Definition BAok (G : gnet) (g : idxset) (d : dgram) : Prop :=
+  match g with
+  | None => h_ack (d_hdr d) = 0 /\ h_ackbits (d_hdr d) = 0
+  | Some (m, acc) => h_ack (d_hdr d) = wire m /\ names_accepted g (d_hdr d) /\ In m acc /\
+                     forall i, In i acc -> In i (idx_acc (g_B G))
+  end.
+
+Record J (S K : Z) (G : gnet) : Prop := {
+  j_A : AInv S K (nA (g_net G)) (g_nA G);
+  j_AB : forall i d, In (i, d) (g_AB G) -> 1 <= i <= g_nA G /\ h_seq (d_hdr d) = wire i;
+  j_ABnd : NoDup (map fst (g_AB G));
+  j_ABw : map snd (g_AB G) = wAB (g_net G);
+  j_B : GI (nB (g_net G)) (g_B G);
+  j_acc : forall i, In i (idx_acc (g_B G)) -> exists d, In (i, d) (g_AB G) /\ In d (g_accB G);
+  j_BA : forall g d, In (g, d) (g_BA G) -> BAok G g d;
+  j_BAw : map snd (g_BA G) = wBA (g_net G) }.
+
+Lemma J_gnet0 S : 0 < S -> S <= 256 -> TICKS < (RING - 1) * S -> J S 0 gnet0.
+Proof.
+  intros H1 H2 H3. constructor; cbn; try reflexivity; try (intros; contradiction).
+  - apply AInv_conn0; assumption.
+  - constructor.
+Qed.
+
+Lemma map_snd_tag {A B} (t : A) (l : list B) : map snd (map (fun d => (t, d)) l) = l.
+Proof. induction l as [|x l IH]; cbn; [reflexivity|]. rewrite IH. reflexivity. Qed.
+
+Lemma idx_acc_add g l : idx_acc (idx_add g l) = l :: idx_acc g.
+Proof. destruct g as [[m acc]|]; reflexivity. Qed.
+
+Lemma GI_BAok c g h : GI c g -> ack_of_window (c_bf_pkt c) h ->
+  match g with
+  | None => h_ack h = 0 /\ h_ackbits h = 0
+  | Some (m, acc) => h_ack h = wire m /\ names_accepted g h /\ In m acc
+  end.
+Proof.
+  intros HG [Ha Hb]. pose proof (GI_names c g h HG Ha Hb) as Hn. destruct g as [[m acc]|]; cbn in HG.
+  - destruct HG as [HR _]. split; [rewrite Ha; apply (R_cur _ _ _ HR)|]. split; [exact Hn|]. apply InB_In. apply (R_in _ _ _ HR).
+  - rewrite HG in Ha, Hb. auto.
+Qed.
+
+Theorem J_step e S K G vl : J S K G -> wf2_ev G vl -> J S K (gstep e G vl).
+Proof.
+  intros [HA HAB HND HABw HB Hacc HBA HBAw] Hwf. destruct vl as [[x|x] l]; cbn [gstep wf2_ev nstep] in *.
+  - (* A moves *)
+    destruct Hwf as [Hop _]. apply ev_open2_eq in Hop.
+    destruct (step e (nA (g_net G)) x) as [a' o] eqn:E.
+    fold (next_idx (nA (g_net G)) a' (g_nA G)).
+    pose proof (step_AInv_idx _ _ _ _ _ _ _ _ Hop HA E) as HA'.
+    destruct (step_emit_idx _ _ _ _ _ _ _ _ Hop HA E) as [Hmono Hem].
+    set (n' := next_idx (nA (g_net G)) a' (g_nA G)) in *.
+    constructor; cbn.
+    + exact HA'.
+    + intros i d Hin. apply in_app_or in Hin as [Hin|Hin].
+      * destruct (HAB i d Hin). split; [lia|assumption].
+      * destruct Hem as [Hem|(d0 & Hem & Hn & Hs)]; rewrite Hem in Hin; cbn in Hin; [destruct Hin|].
+        destruct Hin as [Hin|[]]. injection Hin as <- <-. destruct HA as [[Hn0 _ _ _ _ _ _ _] _].
+        split; [lia|]. rewrite Hn. exact Hs.
+    + rewrite map_app. destruct Hem as [Hem|(d0 & Hem & Hn & Hs)]; rewrite Hem; cbn; [rewrite app_nil_r; exact HND|].
+      apply NoDup_snoc; [exact HND|]. intros Hin. apply in_map_iff in Hin as ([i d] & Hi & Hin). cbn in Hi. subst i.
+      destruct (HAB _ _ Hin). lia.
+    + rewrite map_app, map_snd_tag, HABw. reflexivity.
+    + exact HB.
+    + intros i Hi. destruct (Hacc i Hi) as (d & H1 & H2). exists d. split; [apply in_or_app; left; exact H1|exact H2].
+    + exact HBA.
+    + exact HBAw.
+  - (* B moves *)
+    destruct (step e (nB (g_net G)) x) as [b' o] eqn:E.
+    destruct (step_window _ _ _ _ _ E) as [Hw Hem].
+    set (acc := accepts (nB (g_net G)) x) in *.
+    set (gB' := match acc with Some _ => idx_add (g_B G) l | None => g_B G end).
+    assert (HB' : GI b' gB' /\ (forall i, In i (idx_acc (g_B G)) -> In i (idx_acc gB')) /\
+                  forall i, In i (idx_acc gB') -> exists d, In (i, d) (g_AB G) /\
+                     In d (match acc with Some d => d :: g_accB G | None => g_accB G end)).
+    { subst gB'. destruct acc as [d|].
+      - destruct Hw as (Hd & Ho & bf & Hins & Hbf). destruct (Hwf d Hd Ho) as [Hin Hnear].
+        destruct (HAB _ _ Hin) as [Hl Hs].
+        split; [eapply GI_accept; try eassumption; lia|]. rewrite idx_acc_add.
+        split; [intros i Hi; right; exact Hi|].
+        intros i [<-|Hi]; [exists d; split; [exact Hin|left; reflexivity]|].
+        destruct (Hacc i Hi) as (d' & H1 & H2). exists d'. split; [exact H1|right; exact H2].
+      - split; [eapply GI_same; eassumption|]. split; [auto|exact Hacc]. }
+    destruct HB' as (HB' & Hmono & Hacc').
+    constructor; cbn; try assumption.
+    + intros g d Hin. apply in_app_or in Hin as [Hin|Hin].
+      * specialize (HBA g d Hin). unfold BAok in *. destruct g as [[m ac]|]; [|exact HBA].
+        destruct HBA as (B1 & B2 & B3 & B4). split; [exact B1|]. split; [exact B2|]. split; [exact B3|].
+        intros i Hi. apply Hmono. apply B4. exact Hi.
+      * apply in_map_iff in Hin as (d0 & Hd0 & Hin). injection Hd0 as <- <-.
+        assert (Hh : In (d_hdr d0) (emits o)) by (rewrite <- hdr_dg_of; apply in_map; exact Hin).
+        rewrite Forall_forall in Hem. pose proof (GI_BAok b' gB' (d_hdr d0) HB' (Hem _ Hh)) as Hok.
+        unfold BAok. fold gB'. destruct gB' as [[m ac]|]; [|exact Hok].
+        destruct Hok as (B1 & B2 & B3). split; [exact B1|]. split; [exact B2|]. split; [exact B3|]. auto.
+    + rewrite map_app, map_snd_tag, HBAw. reflexivity.
+Qed.
+
+Theorem J_run e S K vs : forall G, J S K G -> wf2_run e G vs -> J S K (grun e G vs).
+Proof.
+  induction vs as [|v r IH]; intros G HJ Hwf; cbn [grun fold_left]; [exact HJ|].
+  destruct Hwf as [W1 W2]. apply IH; [apply J_step; assumption|exact W2].
+Qed.
+
+(* ---------- the theorem, one step of A ---------- *)
+Lemma pre_recv_facts c x c0 d : pre_recv c x = Some (c0, d) ->
+  dgram_in x = Some d /\ c_packs c0 = c_packs c /\ opens c0 d = opens c d /\
+  (exists now orcs, x = ERecv now d orcs /\ c0 = c \/ x = EClientTick now (RxDgram d orcs) /\ c0 = fst (client_update c now)).
+Proof.
+  destruct x; cbn [pre_recv dgram_in]; try discriminate.
+  - destruct r as [| |d0 orcs]; try discriminate.
+    destruct (status_eqb _ DROPPED); [discriminate|]. intros H. injection H as <- <-.
+    destruct (client_update_window c now) as [_ K0].
+    destruct (client_update c now) as [c0 o0] eqn:E0. cbn [fst] in *.
+    pose proof (client_update_ack _ _ _ _ E0) as [P _ _ _ _].
+    split; [reflexivity|]. split; [exact P|]. split; [apply opens_same; exact K0|].
+    exists now, orcs. right. split; [reflexivity|]. try rewrite E0. reflexivity.
+  - intros H. injection H as <- <-. repeat split. exists now, orcs. left. split; reflexivity.
+Qed.
+
+Theorem acked_accepted_step S K G x l a0 d :
+  J S K G -> wf2_ev G (NA x, l) -> pre_recv (nA (g_net G)) x = Some (a0, d) -> opens a0 d = true ->
+  acked_accepted G a0 d.
+Proof.
+  intros [HA HAB HND HABw HB Hacc HBA HBAw] [_ Hwf] Hpre Hop.
+  destruct (pre_recv_facts _ _ _ _ Hpre) as (Hd & Hp & Ho & _). rewrite Ho in Hop.
+  destruct (Hwf d Hd Hop) as (g & Hin & Hfresh). specialize (HBA g d Hin).
+  intros s t Hpend Hack. rewrite Hp in Hpend.
+  destruct HA as [[Hn _ _ HS Hot Hpe _ _] Hpu].
+  rewrite Forall_forall in Hpe. destruct (Hpe _ Hpend) as (i & Hi & Hs & Ht). cbn [fst snd] in Hs, Ht.
+  unfold purged in Hpu. rewrite Forall_forall in Hpu. pose proof (Hpu _ Hpend) as Hy. cbn [snd] in Hy.
+  assert (Hrec : g_nA G - i < RING - 1) by (unfold RING in *; nia).
+  subst s. unfold BAok in HBA. destruct g as [[m acc]|].
+  - destruct HBA as (B1 & B2 & B3 & B4).
+    destruct (Hacc m (B4 m B3)) as (dm & Hdm & _). destruct (HAB _ _ Hdm) as [Hm _].
+    cbn [idx_fresh] in Hfresh. rewrite B1 in Hack.
+    assert (Hr : - (RING - 32) < m - i < RING) by (unfold FRESH, RING in *; lia).
+    pose proof (hdr_acks_idx m _ i Hack Hr) as Hmi.
+    rewrite <- B1 in Hack.
+    destruct (B2 m acc eq_refl i ltac:(lia) ltac:(unfold HALF; lia) Hack) as [Hia _].
+    destruct (Hacc i (B4 i Hia)) as (dA & H1 & H2). destruct (HAB _ _ H1) as [_ Hs].
+    exists i, dA. repeat split; auto; lia.
+  - exfalso. destruct HBA as [B1 B2]. cbn [idx_fresh] in Hfresh. rewrite B1, B2 in Hack.
+    rewrite wire_small in Hack by lia. rewrite hdr_acks_zero in Hack by lia. discriminate.
+Qed.
